@@ -11,3 +11,6 @@ import JaxVerif.Properties.C01
 #print axioms JV.C01_instancecheck
 #print axioms JV.C01_rank
 #print axioms JV.C01_bcast_spec
+#print axioms JV.C01_source_check_dims
+#print axioms JV.C01_source_variadic
+#print axioms JV.C01_source_variadic_first
